@@ -33,6 +33,10 @@ def c_autochr(f):
     return "autoincrement:" + f.seqid
 
 
+def c_autocolon(f):
+    return "autoincrement:%s:%s" % (f.seqid, f.featuretype)
+
+
 def c_const(f):
     return "fixed"
 
@@ -41,7 +45,7 @@ def c_pos(f):
     return "%s_%s" % (f.seqid, "." if f.start is None else f.start)
 
 
-CALLZOO = {"none": c_none, "empty": c_empty, "name": c_name, "auto": c_auto, "autochr": c_autochr, "const": c_const,
+CALLZOO = {"autocolon": c_autocolon, "none": c_none, "empty": c_empty, "name": c_name, "auto": c_auto, "autochr": c_autochr, "const": c_const,
            "pos": c_pos}
 
 
